@@ -48,6 +48,10 @@ CHECKS = {
          "Exploration: generated programs rich in references, rec instantiations, examples and modules are compiled by the real oal-cli 8 (quick) / 24 (thorough) times as fresh processes - each with its own hash seeds - and 6-7 times in one process interleaved with other compilations plus once on a new thread; any byte difference is a violation.",
          "Hash seeds are sampled by starting processes, not enumerated; time is not varied (nothing in the pipeline reads the clock).",
          "DESIGN.md §4 C06"),
+ "C13": ("process-level differential between the in-process pipeline, the real oal-cli under generated configurations, the playground entry point and the real oal-lsp",
+         "Exploration: source sets accepted or rejected in each phase (lexical, syntax, missing import, import cycle, resolution, kinds, evaluation) are run through the real CLI under options / config file / overriding option / config in a sub-directory, with base absent, valid or malformed and the target pre-existing or not; exit status, target bytes and mtime, stderr location, playground verdict and document, and the language server's diagnostics are compared with the pipeline's verdict and document.",
+         "The in-process pipeline (same library code, in-memory loader) supplies the reference verdict; a malformed base is not a source error; LSP timeouts are inconclusive.",
+         "DESIGN.md §4 C13"),
  "C14": ("generated base documents x accepted programs; frame equality oracle through Builder::with_base and through oal-cli --base",
          "Exploration: bases generated over the OpenAPI object model (servers absent/empty/with variables, security, tags, externalDocs, extensions, every non-schema component map, own paths and schemas) are combined with generated programs; everything but paths and components.schemas must equal the base as the tool reads it, and those two must equal the base-less output; one pair in twelve also runs through the real CLI.",
          "`The base` is the document as deserialised by the openapiv3 model used by the tool itself.",
